@@ -48,6 +48,10 @@ def tsize(t):
 
 
 DOC_SIZE = {"comment": 3, "leaf": 1, "creator": 3}
+# a JSON model whose ids are null: the loader must mint fresh ones (no id is re-used, so this is inside the quantifier)
+JSON_NULL_IDS = ('{"individualName": [{"id": null}, {"nsmap": {}}, {"prefix": null}, {"attributes": {}}, {"extras": {}}, {"content": null}, '
+                 '{"tail": null}, {"children": [{"surName": [{"id": null}, {"nsmap": {}}, {"prefix": null}, {"attributes": {}}, {"extras": {}}, '
+                 '{"content": "s"}, {"tail": null}, {"children": []}]}]}]}')
 
 
 class World:
@@ -130,6 +134,8 @@ class World:
         for k in DOCS:
             if n + DOC_SIZE[k] <= cap:
                 ops.append(["import", k])
+        if n + 2 <= cap:
+            ops.append(["import_json_null_ids"])
         if not self.forgotten:
             ops.append(["create_forget", "creator"])
             ops.append(["import_forget", "comment"])
@@ -158,6 +164,15 @@ class World:
                         ops.append(["replace", p, old, new, False])
                         if all(self.reg[x] for x in self.subtree(old)):
                             ops.append(["replace", p, old, new, True])
+        for old in alive:
+            if old in tp and all(self.reg[x] for x in self.subtree(old)):
+                for new in roots:
+                    if new != old and self.H[new].name == self.H[old].name and new not in self.subtree(old):
+                        for p in alive:
+                            if p != tp[old] and p != old and p != new and old not in self.children(p):
+                                ops.append(["replace_fail", p, old, new])
+                                break
+                        break
         for i in alive:
             if self.reg[i]:
                 ops.append(["delete", i, True])
@@ -247,6 +262,18 @@ class World:
                             if g[0] == cid:
                                 g[2] = False
                                 todo.extend(g[4])
+            elif kind == "import_json_null_ids":
+                root = metapype_io.from_json(JSON_NULL_IDS)
+                new = self.adopt(root)
+                if len(new) != 2:
+                    probs.append(problem("import_node_count", case, expected=2, observed=len(new), op=kind))
+            elif kind == "replace_fail":
+                _, p, old, new_ = op
+                try:
+                    H[p].replace_child(H[old], H[new_], delete_old=True)
+                    probs.append(problem("failing_replace_did_not_raise", case, expected="an exception", observed="returned", op=kind))
+                except Exception:  # noqa  (expected: old is not a child of p)
+                    pass
             elif kind == "copy":
                 c = H[op[1]].copy()
                 self.adopt(c)
